@@ -43,6 +43,11 @@ pub struct Model {
     pub ever_logged: BTreeSet<String>,
     /// the log was torn (death / error inside a write, truncation) since it was last deleted
     pub log_torn_ever: bool,
+    /// records with index below this may be superseded by a record of unknown owner
+    /// (an adoption record that was appended right before n2 died)
+    pub orphan_cut: Option<usize>,
+    /// outputs may have been adopted without the model knowing which
+    pub content_unknown: bool,
 }
 
 impl Model {
@@ -123,6 +128,13 @@ impl Model {
 
     /// false if the record that would decide si's dirtiness may or may not be in the log
     pub fn judgeable(&self, p: &Project, si: usize) -> bool {
+        if let Some(cut) = self.orphan_cut {
+            let s = &p.steps[si];
+            let idx = self.recs.iter().rposition(|r| !r.outs.is_empty() && r.outs.iter().all(|o| s.outs.contains(o)));
+            if idx.map(|i| i < cut).unwrap_or(true) {
+                return false;
+            }
+        }
         !self.rec_for(p, si).map(|r| r.uncertain).unwrap_or(false)
     }
 
